@@ -214,6 +214,10 @@ class Ctl(Harness):
             add("dict2", 2, 1, npt=2, con_const=0.5)
             add("narrow", 4, 2, cb="pos", hist=1)
             add("narrow2", 4, 2, fun_seq=[5.0, 4.0, 6.0, 3.5])
+            # the expansion point is shifted early (large_shift_factor = 1/2) while the feasible x0 stays the best evaluated point
+            add("nlub", 6, 3, npt=2, fun_seq=[5.0, 4.0, 3.0, 2.5, 2.0, 1.5], con_seq=[-1.0, 0.5, 0.5, 0.5, 0.5, 0.5],
+                consts={"large_shift_factor": 0.5})
+            add("unc1", 6, 3, npt=2, fun_seq=[5.0, 4.0, 3.0, 2.5, 2.0, 1.5], consts={"large_shift_factor": 0.5}, cb="pos")
             add("contra", 3, 1, cb="kw")
             add("infeasnl", 3, 1, cb="pos", kinds="all")
             add("allfixnl", 3, 1, cb="kw", kinds="all")
@@ -277,7 +281,7 @@ class Ctl(Harness):
             if d.get("force"):
                 return prop in ("C12", "C01", "C18", "C05", "C09", "C20") and (d["cb"] == "none" or prop in ("C09", "C20"))
             if d.get("fun_seq"):
-                return prop in ("C07", "C18", "C05", "C12", "C08", "C02", "C03", "C20", "C09", "C06")
+                return prop in ("C07", "C18", "C05", "C12", "C08", "C02", "C03", "C20", "C09", "C06", "C01")
             if prop in ("C11", "C18", "C12"):
                 return d["pb"] in ("unc1", "box1", "lineq", "box2s", "linub", "fixed1", "nanbox", "nanboxarr", "narrow", "narrow2") or \
                     (d["pb"] in ("nlub", "feas") and d["kinds"] == "fin") or (d["pb"] == "boxnls" and prop != "C11")
@@ -481,7 +485,11 @@ class Ctl(Harness):
 
         def mkcon(j, m, form):
             def con(x, *args):
-                if shape.get("con_const") is not None:
+                if shape.get("con_seq"):
+                    seq = shape["con_seq"]
+                    kk = len([r for r in log if r["t"] == "con" and r["j"] == j])
+                    vals = [float(seq[kk % len(seq)]) if not ctx.sym else lift(float(seq[kk % len(seq)])) for _ in range(m)]
+                elif shape.get("con_const") is not None:
                     vals = [float(shape["con_const"]) if not ctx.sym else lift(float(shape["con_const"])) for _ in range(m)]
                 else:
                     vals = [val(f"c{j}") for _ in range(m)]
@@ -626,6 +634,12 @@ class Ctl(Harness):
             return orig_step(self_, options_)
 
         M.patch(TR, "get_trust_region_step", step_wrapper)
+        orig_shift = TR.shift_x_base
+
+        def shift_wrapper(self_, options_):
+            flags["shift"] = True
+            return orig_shift(self_, options_)
+
         orig_soc = TR.get_second_order_correction_step
 
         def soc_wrapper(self_, step_, options_):
@@ -637,6 +651,7 @@ class Ctl(Harness):
 
         flags = {}
         M.patch(TR, "get_second_order_correction_step", soc_wrapper)
+        M.patch(TR, "shift_x_base", shift_wrapper)
         orig_enh = TR.enhance_resolution
 
         def enh_wrapper(self_, options_):
@@ -681,7 +696,7 @@ class Ctl(Harness):
                    cbstate=cbstate, saved=saved, options=options, x0=x0, keep=keep)
         try:
             res = M.main.minimize(fun if P.get("fun", True) else None, x0, bounds=bounds, constraints=cons,
-                                  callback=callback, options=options)
+                                  callback=callback, options=options, **dict(shape.get("consts", {})))
             out["res"] = res
         except core.ReplayDiverged:
             raise
@@ -697,9 +712,10 @@ class Ctl(Harness):
                                   (TR, "enhance_resolution", orig_enh), (M.main, "_build_result", orig_build),
                                   (TR, "__init__", orig_tr_init), (MDL, "update_interpolation", orig_upd),
                                   (TR, "get_second_order_correction_step", orig_soc),
-                                  (TR, "get_geometry_step", orig_geo)):
+                                  (TR, "get_geometry_step", orig_geo), (TR, "shift_x_base", orig_shift)):
                 setattr(obj, nm, orig)
         out["soc_taken"] = bool(flags.get("soc"))
+        out["base_shift"] = bool(flags.get("shift"))
         state_after = module_state(M)
         out["state_diff"] = sorted(k for k in set(state_before) | set(state_after)
                                    if state_before.get(k) != state_after.get(k))
@@ -822,6 +838,8 @@ class Ctl(Harness):
         goals.append(f"status_{res.status}")
         if o.get("soc_taken"):
             goals.append("second_order_correction")
+        if o.get("base_shift"):
+            goals.append("base_shift")
 
         # ---- ground truth per evaluation -----------------------------------
         fvals, vvals, xus = [], [], []
@@ -1081,6 +1099,8 @@ class Ctl(Harness):
             g += ["repeated_call", "nested_call"]
         if prop == "C12":
             g += ["interpolation_update", "second_order_correction"]
+        if prop in ("C02", "C12"):
+            g += ["base_shift"]
         return g
 
     def digest(self, ctx, shape, o):
